@@ -456,24 +456,33 @@ func runC17(c *Ctx) {
 		}
 		// systematic sweep of the leading significand 1.00000 .. 9.99999 (internal scaling thresholds of the
 		// iteration depend on the leading digits only); exponent class, sign and low digits vary per case
-		step := c.Stride(2, 2)
+		step := c.Stride(1, 1)
 		k := 0
-		for v := 100000 + (sh.ID*7)%step; v <= 999999; v += step {
+		for v := 100000; v <= 999999; v += step {
 			k++
 			if k%c.Shards != sh.ID {
 				continue
 			}
+			// the exact six-digit significand (in a cohort member with 0, 3, 10 or 28 trailing zeros) ...
 			cc := big.NewInt(int64(v))
-			if pad := r.Pick(0, 0, 3, 10, 28); pad > 0 {
-				cc.Mul(cc, ref.Pow10(pad))
-				if r.Bool() {
-					cc.Add(cc, r.BigBelow(ref.Pow10(pad)))
-				}
-			}
-			e := r.Pick(r.Range(-40, 40), r.Range(ref.MinExp, ref.MaxExp-34))
+			pad := r.Pick(0, 0, 3, 10, 28)
+			cc.Mul(cc, ref.Pow10(pad))
+			e := r.Pick(r.Range(-40, 40), r.Range(ref.MinExp+3, ref.MaxExp-37))
 			j.sh.Cell("sweep/significand")
-			j.judge(ref.Encode(r.Bool(), cc, e), true, nil, 0)
-			j.judge(ref.Encode(false, cc, e), false, nil, 0)
+			// ... in every exponent class of each root: the internal scaling differs with the class
+			for d := 0; d < 3; d++ {
+				j.judge(ref.Encode(r.Bool(), cc, e+d), true, nil, 0)
+			}
+			for d := 0; d < 2; d++ {
+				j.judge(ref.Encode(false, cc, e+d), false, nil, 0)
+			}
+			if k/c.Shards%4 == 0 {
+				// ... and now and then a value inside the cell [v, v+1) * 1e-5
+				c2 := new(big.Int).Mul(big.NewInt(int64(v)), ref.Pow10(28))
+				c2.Add(c2, r.BigBelow(ref.Pow10(28)))
+				j.judge(ref.Encode(false, c2, e+r.Intn(2)), false, nil, 0)
+				j.judge(ref.Encode(r.Bool(), c2, e+r.Intn(3)), true, nil, 0)
+			}
 		}
 	})
 	c.Col.Res.Targets = append(c.Col.Res.Targets,
